@@ -41,6 +41,9 @@ type reproVariant struct {
 	EnvNoise   bool   `json:"env_noise"`
 	SlowArch   string `json:"slow_arch,omitempty"` // HTTP only: requests for this architecture are delayed (controls which architecture finishes last)
 	SlowRepo   string `json:"slow_repo,omitempty"` // HTTP only: the index of this repository answers late (controls which repository's index is ready last)
+	// history: other configurations over the same repositories built earlier in the same process, the process-wide
+	// memos of pkg/apk/apk kept (repro_history.go)
+	After []reproOther `json:"after,omitempty"`
 }
 
 type reproCase struct {
@@ -56,6 +59,8 @@ type reproCase struct {
 	Base *reproBase `json:"base,omitempty"`
 	// the real GetRepositoryIndexes under an imposed completion order, against the model (repro_dims.go)
 	Collect *collectCase `json:"collect,omitempty"`
+	// 2-3 providers of one virtual the world needs (repro_history.go)
+	Prov *reproProv `json:"prov,omitempty"`
 }
 
 type reproSuite struct{}
@@ -135,6 +140,25 @@ func (reproSuite) Gen(r *Rng, i int, tier string) any {
 			c.Variants = append(c.Variants, v)
 		}
 	}
+	// (drawn last: the cases of earlier rounds keep their other dimensions)
+	if r.Chance(55) {
+		c.Prov = genReproProviders(r, &c.Img)
+	}
+	if c.Base == nil {
+		nh := 1
+		if tier == "thorough" && r.Bool() {
+			nh = 2
+		}
+		for k := 0; k < nh; k++ {
+			v := base
+			v.After = genReproOthers(r, &c)
+			v.Name, v.GOMAXPROCS = fmt.Sprintf("after-%s", reproOtherKinds(v.After)), Pick(r, []int{1, 4, 16})
+			if k > 0 {
+				v.Name += "-again"
+			}
+			c.Variants = append(c.Variants, v)
+		}
+	}
 	return c
 }
 
@@ -169,6 +193,16 @@ func reproRunBuilds(c reproCase, raw json.RawMessage) []Step {
 	caseFile := filepath.Join(work, "case.json")
 	os.WriteFile(caseFile, raw, 0o644)
 	dims := []string{fmt.Sprintf("repos:%d", 1+len(c.Mirrors)), fmt.Sprintf("base-image:%v", c.Base != nil)}
+	if c.Prov != nil {
+		dims = append(dims, "providers:"+c.Prov.Shape)
+	} else {
+		dims = append(dims, "providers:none")
+	}
+	for _, v := range c.Variants {
+		for _, o := range v.After {
+			dims = append(dims, "built-before:"+o.Kind)
+		}
+	}
 	if c.Base != nil {
 		if why := reproPrepareBase(&c, repoDir); why != "" {
 			h := sha256.Sum256(raw)
@@ -309,7 +343,7 @@ func reproRunBuilds(c reproCase, raw json.RawMessage) []Step {
 	}
 	h := sha256.Sum256(raw)
 	return []Step{{Line: "x.repro\t" + hex.EncodeToString(h[:8]), Go: goOut, Mode: "oracle-go", GoSpec: verdict, GoClass: goClass, NoImpl: true, Trivial: goOut == "all-variants-failed",
-		Desc: fmt.Sprintf("%d pkgs, world %v, archs %v, %s, sbom=%v, %s%d variants %v, %d output files", len(c.Img.Pkgs), c.Img.IC.Contents.Packages, c.Img.Archs, layers, c.Img.SBOM, reproDimsDesc(&c), len(c.Variants), variantNames(c.Variants), nfiles),
+		Desc: fmt.Sprintf("%d pkgs, world %v, archs %v, %s, sbom=%v, %s%d variants %v, %d output files", len(c.Img.Pkgs), c.Img.IC.Contents.Packages, c.Img.Archs, layers, c.Img.SBOM, reproDimsDesc(&c)+reproHistoryDesc(&c), len(c.Variants), variantNames(c.Variants), nfiles),
 		Tags: append(dims, "archs:" + fmt.Sprint(len(c.Img.Archs)), "layers:" + layers, "result:" + strings.SplitN(goOut, ":", 2)[0], fmt.Sprintf("variants:%d", len(c.Variants)), fmt.Sprintf("offline-failed:%v", offlineFailed))}}
 }
 
@@ -383,6 +417,15 @@ func reproChild(args []string) {
 	}
 	for rep := 0; rep < max(v.Reps, 1); rep++ {
 		apk.VerifResetGlobalCaches()
+		// the history of the process: earlier builds of other configurations, nothing reset in between (a build that
+		// fails is history too)
+		for _, other := range v.After {
+			oo := E2EOpts{Archs: other.Archs, ExtraKeys: c.ExtraKeys}
+			reproOpts(&c, v, rr, &oo)
+			if prev := e2eBuildAt(reproOtherIC(other), repo, repoDir, oo); prev.Err != nil && os.Getenv("VERIF_REPRO_DEBUG") != "" {
+				fmt.Fprintln(os.Stderr, "earlier build", other.Kind, other.World, "failed:", firstLine(prev.Err.Error()))
+			}
+		}
 		out := build1(v.Cache)
 		if out.Err != nil {
 			fmt.Fprintln(os.Stderr, "build error:", out.Err)
